@@ -27,8 +27,8 @@ PROPS["C05"] = dict(
                                               "l3vpn-ipv6-multicast", "l2vpn-vpls", "l2vpn-evpn", "rtc", "ipv4-encap", "ipv6-encap", "ipv4-flowspec",
                                               "l3vpn-ipv4-flowspec", "ipv6-flowspec", "l3vpn-ipv6-flowspec", "l2vpn-flowspec", "opaque", "ls",
                                               "ipv4-srpolicy", "ipv6-srpolicy", "ipv4-mup", "ipv6-mup")],
-    units=[dict(name="bgp", harness="t_bgp", files=["gen_", "c05_"], run="TestVerifC05",
+    units=[dict(name="bgp", harness="t_bgp", files=["gen_", "c05_"], run="TestVerifC05", env={"VERIF_STALL_S": "90", "VERIF_STALL_EXIT": "1"},
                 shards=dict(quick=16, thorough=16), timeout_s=dict(quick=420, thorough=7200)),
-           dict(name="bgp_race", harness="t_bgp", files=["gen_", "c05_"], run="TestVerifC05", race=True, env={"VERIF_C05_RACE": "1"},
+           dict(name="bgp_race", harness="t_bgp", files=["gen_", "c05_"], run="TestVerifC05", race=True, env={"VERIF_C05_RACE": "1", "VERIF_STALL_S": "90", "VERIF_STALL_EXIT": "1"},
                 shards=dict(quick=16, thorough=16), timeout_s=dict(quick=420, thorough=7200))],
 )
